@@ -58,6 +58,7 @@ elif m['round']==2: m['round_note']='second round: the sub-agent was additionall
 else: m['round_note']='first round: the sub-agent was given only the text of the property and a scratch worktree' 
 m['confirmed']={'demo_on_clean_tree':'passes','demo_with_patch':'fails','repository_suite_with_patch':'passes (cargo test --workspace --no-fail-fast --offline)','how':'tools/seedcheck.sh in a scratch worktree of /repo'}
 m['base_commit']=os.environ.get('SEED_BASE_USED','') or m.get('base_commit') or 'HEAD at the time (see git log of /verif)'
+m['checker_commit']=os.popen('git -C /verif rev-parse --short HEAD').read().strip()
 m['checks_run']=sys.argv[4].split()
 m['check_results']=[l for l in sys.argv[5].splitlines() if l.strip()]
 import os
